@@ -105,7 +105,8 @@ fn client_server(d: &Draw, w: &Arc<World>, sandbox: &Sandbox, prop: &'static str
     let refusal = if allow_refusals && d.chance("swarm.refusal", 1, 5) { 1 + d.range("swarm.refusal.kind", 4) } else { 0 };
     // names
     let nested = d.range("swarm.path.style", 4);
-    let base = "file.bin";
+    // file names are passed through as typed: letter case, several dots, non-ASCII letters
+    let base: &str = d.pick("swarm.path.base", &["file.bin", "Report_Q3.BIN", "file.bin", "data.tar.gz", "README", "\u{fc}bung.bin", "file.bin", "a b.bin"]);
     let data = Arc::new(if d.chance("swarm.content.zero_runs", 1, 8) { content_with_zero_runs(len, 21, b) } else { content(len, 21) });
     let (file_arg, server_path, client_path);
     if upload {
@@ -145,9 +146,9 @@ fn client_server(d: &Draw, w: &Arc<World>, sandbox: &Sandbox, prop: &'static str
         }
     } else {
         let rel = match nested {
-            1 => "nested/dir/file.bin".to_string(),
-            2 => "nested\\dir\\file.bin".to_string(),
-            3 => "/file.bin".to_string(),
+            1 => format!("nested/Dir/{base}"),
+            2 => format!("nested\\Dir\\{base}"),
+            3 => format!("/{base}"),
             _ => base.to_string(),
         };
         let on_server = srv_dir.join(rel.replace('\\', "/").trim_start_matches('/'));
@@ -364,7 +365,7 @@ pub fn cleanup(tier: Tier, w: &Arc<World>) -> Scn {
             srv.send_dir = Some(sandbox.dir("pub"));
         }
     }
-    let mode = d.weighted("swarm.c13.mode", &[5, 3, 2, 2]);
+    let mode = d.weighted("swarm.c13.mode", &[5, 3, 2, 2, 1]);
     let oc = draw_options(&d, false, None);
     let max_blocks = if tier == Tier::Thorough { 40 } else { 24 };
     let len = draw_len(&d, oc.b, oc.w, max_blocks, 1 << 19).max(1);
@@ -435,6 +436,21 @@ pub fn cleanup(tier: Tier, w: &Arc<World>) -> Scn {
             fc.stall_w = if d.chance("swarm.fault.stall", 1, 2) { 120 } else { 0 };
             fc.sched_w = [4, 1, 1, 1, 1];
             desc = format!("retransmitted-WRQ {} len={len} opts={:?} budget={} stall_w={}", srv.describe(), oc.opts, fc.budget, fc.stall_w);
+            let (p, c) = w.add_peer(Box::new(Writer::new(xc, data.to_vec())), false, 0);
+            specs.push(UploadSpec { client: c, peer: p, content: data.clone(), name: None });
+            starts.push((p, 10 * MS));
+        }
+        4 => {
+            // (iv) an upload that completes; the client then tears down noisily (an ERROR to the transfer
+            // endpoint after the final ACK). Completed is completed.
+            let mut xc = mk("up.bin", &oc);
+            xc.resend_request = false;
+            xc.late_error = Some(d.pick("swarm.c13.late_error.code", &[0u16, 5, 3, 4]));
+            xc.close_when_done = d.chance("swarm.c13.close_when_done", 1, 2);
+            if d.chance("swarm.c13.icmp", 1, 2) {
+                w.lock().icmp = true;
+            }
+            desc = format!("completed-then-late-ERROR {} len={len} opts={:?} code={:?}", srv.describe(), oc.opts, xc.late_error);
             let (p, c) = w.add_peer(Box::new(Writer::new(xc, data.to_vec())), false, 0);
             specs.push(UploadSpec { client: c, peer: p, content: data.clone(), name: None });
             starts.push((p, 10 * MS));
@@ -528,7 +544,17 @@ pub fn isolation(tier: Tier, w: &Arc<World>) -> Scn {
         let oc = draw_options(&d, true, None);
         let len = draw_len(&d, oc.b, oc.w, 24, 1 << 18);
         let data = Arc::new(if d.chance("swarm.content.zero_runs", 1, 10) { content_with_zero_runs(len, 200 + i as u64, oc.b) } else { content(len, 200 + i as u64) });
-        let name = format!("{}{i}.bin", if upload { "u" } else { "f" });
+        // names may share a stem with a neighbour's (fw3.bin beside fw3.sig); several clients may fetch one file
+        let mut name = format!("{}{}.{}", if upload { "u" } else { "f" }, if i > 0 && d.chance("swarm.name.shared_stem", 1, 4) { i - 1 } else { i }, if i % 2 == 0 { "bin" } else { "sig" });
+        let mut data = data;
+        let mut len = len;
+        if !upload && d.chance("swarm.same_file_as_earlier_download", 1, 4) {
+            if let Some(prev) = clients.iter().find(|c: &&ClientSpec| !c.upload) {
+                name = prev.path.file_name().unwrap().to_string_lossy().into_owned();
+                data = prev.content.clone();
+                len = data.len();
+            }
+        }
         let path = dir.join(&name);
         if !upload {
             std::fs::write(&path, &*data).unwrap();
@@ -543,7 +569,7 @@ pub fn isolation(tier: Tier, w: &Arc<World>) -> Scn {
         xc.timeout_ns = oc.tmo_s * SEC;
         xc.resend_request = false;
         let (p, c) = if upload { w.add_peer(Box::new(Writer::new(xc, data.to_vec())), srv.v6, 0) } else { w.add_peer(Box::new(Reader::new(xc)), srv.v6, 0) };
-        desc.push_str(&format!("{}{len}/{}x{} ", if upload { "U" } else { "D" }, oc.b, oc.w));
+        desc.push_str(&format!("{}{name}:{len}/{}x{} ", if upload { "U" } else { "D" }, oc.b, oc.w));
         clients.push(ClientSpec { client: c, peer: p, upload, content: data.clone(), path: path.clone() });
         xspecs.push(XferSpec { client: c, peer: p, kind: if upload { Kind::Upload } else { Kind::Download }, content: data, path, conformant: true, dally: true, timeout_ratio: 1 });
         starts.push((p, 10 * MS + d.range("swarm.client.start_us", 3000) as Ns * US));
@@ -674,6 +700,15 @@ pub fn wrap(_tier: Tier, w: &Arc<World>) -> Scn {
     }
     let mut xc = XferCfg::new(srv.addr(), "big.bin");
     xc.opts = vec![("blksize".into(), b.to_string()), ("windowsize".into(), wsz.to_string())];
+    // the other options travel along as they would with a real client: the size announced for a
+    // transfer beyond 65535 blocks, a timeout
+    let with_tsize = d.chance("swarm.opt.tsize", 1, 2);
+    if with_tsize {
+        xc.opts.insert(d.range("swarm.opt.tsize.at", 3) as usize, ("tsize".into(), if upload { len.to_string() } else { "0".into() }));
+    }
+    if d.chance("swarm.opt.timeout", 1, 4) {
+        xc.opts.push(("timeout".into(), "5".into()));
+    }
     xc.resend_request = false;
     xc.gap_ack = !d.chance("swarm.reader.no_gap_ack", 1, 4);
     xc.per_block_ack = false;
@@ -699,7 +734,7 @@ pub fn wrap(_tier: Tier, w: &Arc<World>) -> Scn {
         // faults only in the windows around the wrap
         g.wrap_gate = Some(2 * wsz.min(2000) + 8);
     }
-    let desc = format!("wrap {} {} blocks={blocks} blksize={b} windowsize={wsz} len={len} faultfree={faultfree}", srv.describe(), if upload { "upload" } else { "download" });
+    let desc = format!("wrap {} {} blocks={blocks} blksize={b} windowsize={wsz} len={len} tsize={with_tsize} faultfree={faultfree}", srv.describe(), if upload { "upload" } else { "download" });
     let kind = if upload { Kind::Upload } else { Kind::Download };
     let (peer, client) = if upload { w.add_peer(Box::new(Writer::new(xc, data.to_vec())), false, 0) } else { w.add_peer(Box::new(Reader::new(xc)), false, 0) };
     let spec = XferSpec { client, peer, kind, content: data, path, conformant: true, dally: true, timeout_ratio: 1 };
